@@ -177,8 +177,8 @@ def compare_asm(a, b, k, sk, desc, stats, path=""):
     for key in set(a) | set(b):
         if key in (".code", ".data"):
             continue
-        if a.get(key) != b.get(key):
-            viols.append((["metadata", key], "%s%s: field %s %r -> %r" % (k, path, key, a.get(key), b.get(key))))
+        if a.get(key, "<absent>") != b.get(key, "<absent>"):       # a field that appears with value null is a change too
+            viols.append((["metadata", key], "%s%s: field %s %r -> %r" % (k, path, key, a.get(key, "<absent>"), b.get(key, "<absent>"))))
     viols.extend(compare_code(a.get(".code", []), b.get(".code"), k + path + "/.code", sk, desc, stats))
     da, db = a.get(".data"), b.get(".data")
     if (da is None) != (db is None):
@@ -198,8 +198,9 @@ def compare_asm(a, b, k, sk, desc, stats, path=""):
             for key in set(x) | set(y):
                 if key == ".code":
                     continue
-                if x.get(key) != y.get(key):
-                    viols.append((["metadata", "data:" + key], "%s/.data/%s: field %s changed" % (k, dk, key)))
+                if x.get(key, "<absent>") != y.get(key, "<absent>"):
+                    viols.append((["metadata", "data:" + key], "%s/.data/%s: field %s changed (%r -> %r)" % (
+                        k, dk, key, str(x.get(key, "<absent>"))[:40], str(y.get(key, "<absent>"))[:40])))
             viols.extend(compare_code(x[".code"], y.get(".code"), "%s/.data/%s/.code" % (k, dk), sk, desc, stats))
         elif x != y:
             viols.append((["metadata", ".data-entry"], "%s%s/.data/%s changed" % (k, path, dk)))
@@ -222,7 +223,7 @@ def compare_code(ca, cb, where, sk, desc, stats):
         if x is None or y is None or x.get("name") != y.get("name"):
             cls = ["skeleton", "missing-or-reordered", (x or y).get("name")]
         else:
-            f = sorted(kk for kk in set(x) | set(y) if x.get(kk) != y.get(kk))[0]
+            f = sorted(kk for kk in set(x) | set(y) if x.get(kk, "<absent>") != y.get(kk, "<absent>"))[0]
             cls = ["skeleton", "field:" + f, x.get("name")]
         viols.append((cls, "%s: skeleton entry %d: %r -> %r" % (where, i, x, y)))
         return viols
